@@ -1053,6 +1053,352 @@ def exec_tabular(case) -> Soft:
     return s
 
 
+# =================================================================== profiles
+PROFILE_ROUTES = ("json", "rich_dict", "pickle", "copy", "deepcopy")
+PROFILE_ALPHA = {"dna": "ACGT", "rna": "ACGU", "protein": "ACDEFGHIKL"}
+PROFILE_SOURCES = ["counts_per_pos", "counts_per_pos", "counts_per_seq", "probs_per_pos", "probs_per_seq", "freqs", "freqs-from-seqs", "pssm", "pssm", "pssm-from-freqs",
+                   "motif_totals", "direct-counts", "direct-counts", "direct-freqs", "direct-pssm", "direct-pssm-scores"]
+
+
+@st.composite
+def profile_cases(draw):
+    kind = draw(st.sampled_from(["profile"] * 6 + ["dictarray-nd", "distance"]))
+    ops = [[draw(st.integers(0, 1000)), draw(st.integers(0, 1000)), draw(st.integers(0, 1000))] for _ in range(draw(st.integers(0, 3)))]
+    if kind == "dictarray-nd":
+        shape = draw(st.lists(st.integers(1, 3), min_size=1, max_size=3))
+        n = 1
+        for d in shape:
+            n *= d
+        ints = draw(st.booleans())
+        vals = draw(st.lists(st.integers(-50, 50) if ints else st.one_of(st.floats(-1e3, 1e3, allow_nan=False), st.sampled_from([0.1, 1 / 3, -0.0, 1e-30])), min_size=n, max_size=n))
+        # dimension keys: strings, or ints (range / arbitrary ints)
+        keys = [draw(st.sampled_from(["str", "range", "ints"])) for _ in shape]
+        return {"kind": kind, "shape": shape, "vals": vals, "keys": keys, "ops": ops}
+    if kind == "distance":
+        n = draw(st.integers(2, 5))
+        names = [f"n{i}" for i in range(n)]
+        if draw(st.booleans()):
+            names = names[::-1]
+        d = [[names[i], names[j], None if draw(st.integers(0, 9)) == 0 else draw(st.floats(0, 5, allow_nan=False))] for i in range(n) for j in range(i + 1, n)]
+        return {"kind": kind, "dists": d, "ops": ops}
+    source = draw(st.sampled_from(PROFILE_SOURCES))
+    case = {"kind": kind, "source": source, "ops": ops, "wrap": draw(st.integers(0, 2)) == 0, "pseudocount": draw(st.sampled_from([0, 0, 1, 0.5])),
+            "background": draw(st.sampled_from([None, None, [1, 2, 3, 4]]))}
+    if source.startswith("direct"):
+        ml = draw(st.sampled_from([1, 1, 2]))
+        alpha = draw(st.sampled_from(["ACGT", "TCAG", "ACDEFGHIKL", "AB"]))
+        motifs = list(alpha) if ml == 1 else [a + b for a in alpha[:3] for b in alpha[:3]]
+        motifs = motifs[: draw(st.integers(2, len(motifs)))]
+        nrows = draw(st.integers(1, 5))
+        one_d = source == "direct-counts" and draw(st.integers(0, 3)) == 0 or source == "direct-freqs" and draw(st.integers(0, 3)) == 0
+        rows = []
+        for _ in range(1 if one_d else nrows):
+            row = draw(st.lists(st.integers(0, 9), min_size=len(motifs), max_size=len(motifs)))
+            if source != "direct-counts" and not any(row):
+                row[draw(st.integers(0, len(motifs) - 1))] = 1  # a frequency row needs an observation
+            rows.append(row)
+        if not any(any(r) for r in rows):
+            rows[0][0] = 1  # the classes refuse all-zero data
+        case.update(motifs=motifs, counts=rows, one_d=bool(one_d), row_keys=draw(st.sampled_from(["none", "none", "str", "ints"])))
+        if source == "direct-pssm-scores":
+            # log-odds values given directly: every row has a negative and a positive score
+            case["scores"] = [[draw(st.sampled_from([-2.5, -1.0, -0.25, 0.0, 0.5, 1.0, 1.75])) for _ in motifs] for _ in range(nrows)]
+            for r in case["scores"]:
+                r[0], r[1] = -1.5, 1.25
+        return case
+    mt = draw(st.sampled_from(["dna", "dna", "rna", "protein"]))
+    nrows = draw(st.integers(2, 4))
+    L = draw(st.integers(2, 9))
+    alpha = PROFILE_ALPHA[mt]
+    extra = "-" * 2 + ("N" if mt != "protein" else "X")
+    rows = {}
+    for i in range(nrows):
+        row = [draw(st.sampled_from(extra)) if draw(st.integers(0, 5)) == 0 else draw(st.sampled_from(alpha)) for _ in range(L)]
+        rows[f"s{i}"] = "".join(row)
+    case.update(moltype=mt, rows=rows, array_align=draw(st.booleans()), motif_length=draw(st.sampled_from([1, 1, 1, 2, 3])), include_ambiguity=draw(st.booleans()),
+                allow_gap=draw(st.booleans()), exclude_unobserved=draw(st.booleans()))
+    return case
+
+
+def _profile_base_obs():
+    return [("class", lambda o: type(o).__name__), ("names", lambda o: o.template.names), ("array", lambda o: o.array), ("dtype", lambda o: o.array.dtype.kind),
+            ("shape", lambda o: list(o.shape)), ("to_dict", lambda o: o.to_dict()), ("keys", lambda o: list(o.keys()))]
+
+
+def _profile_typed_obs(clsname, ndim):
+    """observers that need the profile class (derived methods); only used on copies of the right class"""
+    obs = [("motifs", lambda o: list(o.motifs)), ("motif_length", lambda o: o.motif_length), ("str", str),
+           ("take-motifs", lambda o: _sub_profile(o.take(list(o.motifs)[:2], axis=1)))]
+    if ndim == 2:
+        obs.append(("row0", lambda o: _sub_profile(o[o.template.names[0][0]])))
+    if clsname == "MotifCountsArray":
+        obs += [("motif_totals", lambda o: _sub_profile(o.motif_totals())), ("to_freq_array", lambda o: _sub_profile(o.to_freq_array(pseudocount=1)))]
+        if ndim == 2:
+            obs += [("row_totals", lambda o: o.row_totals().array), ("to_pssm", lambda o: _sub_profile(o.to_pssm(pseudocount=1)))]
+    elif clsname == "MotifFreqsArray" and ndim == 2:
+        obs += [("entropy", lambda o: o.entropy()), ("entropy_terms", lambda o: o.entropy_terms().array), ("relative_entropy", lambda o: o.relative_entropy()),
+                ("information", lambda o: o.information()), ("pairwise_jsd", lambda o: o.pairwise_jsd()), ("to_pssm", lambda o: _sub_profile(o.to_pssm()))]
+    elif clsname == "PSSM":
+        def score(o):
+            if o.motif_length != 1:
+                return None
+            seq = "".join(o.motifs[(3 * i) % len(o.motifs)] for i in range(o.shape[0] + 3))
+            return o.score_seq(seq)
+
+        obs.append(("score_seq", score))
+    return obs
+
+
+def _sub_profile(o):
+    return [type(o).__name__, norm(o.template.names), norm(o.array)]
+
+
+def _send_profile(s: Soft, sig: str, obj, route: str):
+    import copy
+
+    if route in ("copy", "deepcopy"):
+        fn = copy.copy if route == "copy" else copy.deepcopy
+        try:
+            return True, fn(obj)
+        except Exception as e:  # noqa: BLE001  (the copy protocol runs in C: no frame of the code under test)
+            s.fail(f"{sig}/{route}/raises:{type(e).__name__}@{exception_site(e)}", f"{type(e).__name__}: {e}")
+            return False, None
+    return send(s, sig, obj, route)
+
+
+def _profile_round_trips(s: Soft, sig: str, obj, what: str, routes=PROFILE_ROUTES, extract=None, container=None):
+    """observation of obj against that of its copies; derived methods only when the class survived"""
+    clsname = type(obj).__name__
+    base = _profile_base_obs()
+    typed = _profile_typed_obs(clsname, obj.array.ndim) if clsname in ("MotifCountsArray", "MotifFreqsArray", "PSSM") else []
+    want = observe(obj, base + typed)
+    mark_unobs(s, want)
+    for route in routes:
+        ok, cp = _send_profile(s, sig, obj if container is None else container, route)
+        if not ok:
+            continue
+        if extract is not None:
+            ok, cp = s.call(f"{sig}/{route}/extract", extract, cp)
+            if not ok:
+                continue
+        if not hasattr(cp, "template") or not hasattr(cp, "array"):
+            s.fail(f"{sig}/{route}/class", f"copy is a {type(cp).__name__}, original a {clsname} :: {what}")
+            continue
+        observers = base + (typed if type(cp).__name__ == clsname else [])
+        got = observe(cp, observers)
+        compare(s, f"{sig}/{route}", {k: v for k, v in want.items() if k in got}, got, what)
+        if route in ("copy", "deepcopy") and cp is obj:
+            s.fail(f"{sig}/{route}/same-object", what)
+        s.cls("route:" + route)
+    return want
+
+
+def _build_profile(case):
+    """the object named by the case; exceptions of the producing methods propagate (caller classifies)"""
+    import numpy
+
+    from cogent3 import make_aligned_seqs
+    from cogent3.core.profile import PSSM, MotifCountsArray, MotifFreqsArray
+
+    source = case["source"]
+    pc = case["pseudocount"]
+    if source.startswith("direct"):
+        motifs = list(case["motifs"])
+        counts = numpy.array(case["counts"][0] if case["one_d"] else case["counts"], dtype=int)
+        n = 1 if case["one_d"] else len(case["counts"])
+        rk = None if case["one_d"] or case["row_keys"] == "none" else [f"p{i}" for i in range(n)] if case["row_keys"] == "str" else [10 + 3 * i for i in range(n)]
+        bg = None
+        if case["background"]:
+            w = [case["background"][i % 4] for i in range(len(motifs))]
+            bg = numpy.array(w, dtype=float) / sum(w)
+        if source == "direct-counts":
+            return MotifCountsArray(counts, motifs, row_indices=rk)
+        if source == "direct-pssm-scores":
+            return PSSM(numpy.array(case["scores"], dtype=float)[:n], motifs, row_indices=rk, background=bg)
+        data = counts + (pc or 0)
+        freqs = data / (data.sum() if case["one_d"] else numpy.vstack(data.sum(axis=1)))
+        if source == "direct-freqs":
+            return MotifFreqsArray(freqs, motifs, row_indices=rk)
+        return PSSM(freqs, motifs, row_indices=rk, background=bg)
+    aln = make_aligned_seqs(dict(case["rows"]), moltype=case["moltype"], array_align=case["array_align"])
+    kw = dict(motif_length=case["motif_length"], include_ambiguity=case["include_ambiguity"], allow_gap=case["allow_gap"])
+    skw = dict(kw, exclude_unobserved=case["exclude_unobserved"])
+    if source == "counts_per_pos":
+        return aln.counts_per_pos(**kw)
+    if source == "counts_per_seq":
+        return aln.counts_per_seq(**skw)
+    if source == "probs_per_pos":
+        return aln.probs_per_pos(**kw)
+    if source == "probs_per_seq":
+        return aln.probs_per_seq(**skw)
+    if source == "freqs":
+        return aln.counts_per_pos(**kw).to_freq_array(pseudocount=pc)
+    if source == "freqs-from-seqs":
+        return aln.counts_per_seq(**skw).to_freq_array(pseudocount=pc)
+    if source == "motif_totals":
+        return aln.counts_per_pos(**kw).motif_totals()
+    counts = aln.counts_per_pos(**kw)
+    bg = None
+    if case["background"]:
+        w = [case["background"][i % 4] for i in range(len(counts.motifs))]
+        bg = numpy.array(w, dtype=float) / sum(w)
+    if source == "pssm":
+        return counts.to_pssm(background=bg, pseudocount=pc)
+    return counts.to_freq_array(pseudocount=pc).to_pssm(background=bg)
+
+
+def exec_profile(case) -> Soft:
+    import warnings
+
+    import numpy
+
+    from cogent3.app.result import tabular_result
+    from cogent3.evolve.fast_distance import DistanceMatrix
+    from cogent3.util.dict_array import DictArrayTemplate
+
+    s = Soft("C10/")
+    kind = case["kind"]
+    what = f"{case}"
+    nhist = 0
+    if kind == "dictarray-nd":
+        shape = case["shape"]
+        arr = numpy.array(case["vals"]).reshape(shape)
+        dims = [[f"d{k}x{i}" for i in range(n)] if how == "str" else n if how == "range" else [7 + 2 * i for i in range(n)] for k, (n, how) in enumerate(zip(shape, case["keys"]))]
+        ok, obj = s.call("dictarray-nd/construct", lambda: DictArrayTemplate(*dims).wrap(arr))
+        if not ok:
+            return s
+        for a, b, _ in case["ops"]:
+            if obj.array.ndim < 2:
+                break
+            names0 = list(obj.template.names[0])
+            ok, o2 = s.call("dictarray-nd/history/getitem", lambda: obj[names0[b % len(names0)]] if a % 2 else obj[[names0[b % len(names0)]]])
+            if not ok:
+                return s
+            if not hasattr(o2, "template"):
+                break
+            obj = o2
+            nhist += 1
+        _profile_round_trips(s, "dictarray-nd", obj, what)
+        s.cls("dictarray-nd", f"ndim:{obj.array.ndim}", *("keys:" + k for k in case["keys"]))
+        s.nontrivial = nhist >= 1 or len(shape) == 3
+        return s
+    if kind == "distance":
+        dists = {(a, b): (float("nan") if v is None else v) for a, b, v in case["dists"]}
+        ok, obj = s.call("distance/construct", lambda: DistanceMatrix(dists))
+        if not ok:
+            return s
+        for a, b, c_ in case["ops"]:
+            names = list(obj.names)
+            if len(names) < 3:
+                break
+            sel = (names[b % len(names):] + names[: b % len(names)])[: 2 + c_ % (len(names) - 1)]
+            ok, o2 = s.call("distance/history/take_dists", lambda: obj.take_dists(sel))
+            if not ok:
+                return s
+            obj = o2
+            nhist += 1
+        base = [("class", lambda o: type(o).__name__), ("names", lambda o: [str(n) for n in o.names]), ("array", lambda o: o.array), ("to_dict", lambda o: o.to_dict()),
+                ("shape", lambda o: list(o.shape))]
+        want = observe(obj, base)
+        for route in ("copy", "deepcopy"):  # the other routes are exercised by the tabular sub-check
+            ok, cp = _send_profile(s, "distance", obj, route)
+            if ok:
+                compare(s, f"distance/{route}", want, observe(cp, base), what)
+                s.cls("route:" + route)
+        s.cls("distance")
+        s.nontrivial = nhist >= 1
+        return s
+
+    # ---- MotifCountsArray / MotifFreqsArray / PSSM
+    source = case["source"]
+    try:
+        with warnings.catch_warnings():
+            warnings.simplefilter("ignore")  # 0/0 rows of frequency arrays are NaN by design
+            obj = _build_profile(case)
+    except HarnessError:
+        raise
+    except Exception as e:  # noqa: BLE001
+        if not raised_in_repo(e):
+            raise
+        # the producing methods refuse e.g. all-zero counts ("Must provide data"): not a serialisation matter
+        s.cls("construct-refused:" + type(e).__name__)
+        return s
+    clsname = type(obj).__name__
+    if clsname not in ("MotifCountsArray", "MotifFreqsArray", "PSSM"):
+        raise HarnessError(f"{source} gave a {clsname}")
+    for a, b, c_ in case["ops"]:
+        op = ["take-motifs", "take-rows", "take-negate", "row", "row-slice"][a % 5]
+        motifs = list(obj.motifs)
+        rows = list(obj.template.names[0]) if obj.array.ndim == 2 else None
+        if clsname == "PSSM" and op in ("row",):
+            continue  # a PSSM is two dimensional by construction
+        if op == "take-motifs":
+            sel = sorted({motifs[b % len(motifs)], motifs[c_ % len(motifs)]}, key=motifs.index)
+            fn = lambda: obj.take(sel, axis=1)  # noqa: E731
+        elif op == "take-negate":
+            if len(motifs) < 3:
+                continue
+            fn = lambda: obj.take([motifs[b % len(motifs)]], negate=True, axis=1)  # noqa: E731
+        elif rows is None:
+            continue
+        elif op == "take-rows":
+            sel = sorted({rows[b % len(rows)], rows[c_ % len(rows)]}, key=rows.index)
+            fn = lambda: obj.take(sel, axis=0)  # noqa: E731
+        elif op == "row":
+            fn = lambda: obj[rows[b % len(rows)]]  # noqa: E731
+        else:
+            lo, hi = sorted((b % (len(rows) + 1), c_ % (len(rows) + 1)))
+            if lo == hi:
+                continue
+            fn = lambda: obj[lo:hi]  # noqa: E731
+        try:
+            with warnings.catch_warnings():
+                warnings.simplefilter("ignore")
+                o2 = fn()
+        except HarnessError:
+            raise
+        except Exception as e:  # noqa: BLE001
+            if not raised_in_repo(e):
+                raise
+            s.cls("history-op-refused:" + op)  # e.g. the selection holds zeros only, a PSSM re-interprets positive scores
+            continue
+        if type(o2).__name__ != clsname:
+            s.cls("history-op-left-class:" + op)
+            continue
+        obj = o2
+        nhist += 1
+        s.cls("op:" + op)
+    with warnings.catch_warnings():
+        warnings.simplefilter("ignore")
+        want = _profile_round_trips(s, "profile", obj, what)
+        if case["wrap"]:
+            # the classes are named item types of tabular_result
+            def build():
+                res = tabular_result(source="data/x.fa")
+                res["profile"] = obj
+                return res
+
+            def extract(cp):
+                cp.deserialised_values()
+                return cp["profile"]
+
+            ok, res = s.call("profile/in-result/construct", build)
+            if ok:
+                _profile_round_trips(s, "profile/in-result", obj, what, routes=("json", "rich_dict", "pickle"), extract=extract, container=res)
+                s.cls("in-tabular_result")
+    s.cls("class:" + clsname, "source:" + source, f"ndim:{obj.array.ndim}")
+    if not isinstance(want.get("array"), Unobs):
+        flat = want["array"] if obj.array.ndim == 1 else [v for r in want["array"] for v in r]
+        if "nan" in flat:
+            s.cls("has-nan")
+    if not isinstance(want.get("names"), Unobs) and want["names"] and want["names"][0] and isinstance(want["names"][0][0], int):
+        s.cls("int-row-keys")
+    if obj.motif_length > 1:
+        s.cls("motif_length>1")
+    s.nontrivial = nhist >= 1 or not source.startswith("direct")
+    return s
+
+
 # ================================================= alphabets, moltypes, codes
 OLD_MOLTYPES = ["dna", "rna", "protein", "protein_with_stop", "text", "bytes", "ab"]
 NEW_MOLTYPES = ["dna", "rna", "protein", "protein_with_stop", "text", "bytes"]
@@ -1528,6 +1874,45 @@ def lf_spec(draw, allow_loci=True, max_ops=4):
             "name": draw(st.sampled_from([None, None, "mylf"])), "ops": ops, "omp": draw(st.integers(0, 3)) == 0}
 
 
+# model families other than nucleotide: codon and empirical protein models (GN / ssGN are in LF_MODELS)
+LF_FAMILIES = {"codon": ["GY94", "Y98", "CNFGTR", "MG94GTR"], "protein": ["JTT92", "WG01", "DSO78", "AH96"]}
+SENSE_CODONS = [a + b + c for a in "TCAG" for b in "TCAG" for c in "TCAG" if a + b + c not in ("TAA", "TAG", "TGA")]
+AMINO_ACIDS = "ACDEFGHIKLMNPQRSTVWY"
+_FAMILY_MODEL_CACHE = {}
+
+
+@st.composite
+def lf_family_spec(draw):
+    """a codon or protein likelihood function on three or four tips; same history operations as lf_spec"""
+    family = draw(st.sampled_from(["codon", "protein", "protein"]))
+    model = draw(st.sampled_from(LF_FAMILIES[family]))
+    variant = "bins" if family == "protein" and draw(st.integers(0, 3)) == 0 else "plain"
+    ntips = draw(st.integers(3, 4))
+    names = list("abcd")[:ntips]
+    nodes = [[nm, draw(st.floats(0.01, 0.8)), []] for nm in names]
+    if len(nodes) > 3:
+        i = draw(st.integers(0, 2))
+        a, b = nodes.pop(i), nodes.pop(i)
+        nodes.append(["e0", draw(st.floats(0.01, 0.5)), [a, b]])
+    L = draw(st.integers(3, 8))
+    pool = draw(st.lists(st.sampled_from(SENSE_CODONS), min_size=2, max_size=6)) if family == "codon" else list(AMINO_ACIDS)
+    gap = "---" if family == "codon" else "-"
+    base = [draw(st.sampled_from(pool)) for _ in range(L)]
+    aln = {}
+    for nm in names:
+        row = [(gap if draw(st.integers(0, 5)) == 0 else draw(st.sampled_from(pool))) if draw(st.integers(0, 3)) == 0 else ch for ch in base]
+        if all(ch == gap for ch in row):
+            row[0] = pool[0]
+        aln[nm] = "".join(row)
+    ops = []
+    for _ in range(draw(st.integers(0, 3))):
+        kind = draw(st.sampled_from(["rule", "rule", "mprobs", "optimise", "length"]))
+        ops.append({"kind": kind, "a": draw(st.integers(0, 1000)), "b": draw(st.integers(0, 1000)), "mode": draw(st.sampled_from(["const", "init", "indep", "shared", "bounds"])),
+                    "val": draw(st.floats(0.2, 5.0)), "w": draw(st.lists(st.integers(1, 9), min_size=4, max_size=4))})
+    return {"model": model, "family": family, "moltype": "dna" if family == "codon" else "protein", "variant": variant, "bins": 2, "dist": "gamma", "tree": nodes, "loci": [None],
+            "alns": [aln], "name": draw(st.sampled_from([None, None, "mylf"])), "ops": ops, "omp": draw(st.integers(0, 3)) == 0}
+
+
 def _newick(nodes):
     def nw(n):
         nm, ln, kids = n
@@ -1549,8 +1934,18 @@ def build_lf(s: Soft, pre: str, spec):
     if spec["omp"] and not discrete:
         kw["optimise_motif_probs"] = True
 
+    family = spec.get("family")
+    moltype = spec.get("moltype", "dna")
+
     def construct():
-        sm = get_model(spec["model"], **kw)
+        if family:
+            # codon models take ~1 s to build: one instance per process and keyword set (models are not modified by their likelihood functions)
+            key = json.dumps([spec["model"], kw], sort_keys=True)
+            if key not in _FAMILY_MODEL_CACHE:
+                _FAMILY_MODEL_CACHE[key] = get_model(spec["model"], **kw)
+            sm = _FAMILY_MODEL_CACHE[key]
+        else:
+            sm = get_model(spec["model"], **kw)
         tree = make_tree(_newick(spec["tree"]))
         lkw = {}
         if spec["variant"] == "bins":
@@ -1558,7 +1953,7 @@ def build_lf(s: Soft, pre: str, spec):
         if spec["variant"] == "loci":
             lkw["loci"] = list(spec["loci"])
         lf = sm.make_likelihood_function(tree, **lkw)
-        alns = [make_aligned_seqs(dict(a), moltype="dna") for a in spec["alns"]]
+        alns = [make_aligned_seqs(dict(a), moltype=moltype) for a in spec["alns"]]
         lf.set_alignment(alns if spec["variant"] == "loci" else alns[0])
         if spec["name"]:
             lf.set_name(spec["name"])
@@ -1609,8 +2004,15 @@ def build_lf(s: Soft, pre: str, spec):
         elif kind == "mprobs":
             if discrete:
                 continue
-            tot = float(sum(op["w"]))
-            probs = {m: w / tot for m, w in zip("TCAG", op["w"])}
+            if family:
+                # keys as the function itself reports them (61 codons, 4 nucleotides for the monomer based MG94*, 20 amino acids)
+                keys = list(lf.get_motif_probs().keys())
+                ws = [op["w"][i % 4] + (i * 7 + a) % 5 for i in range(len(keys))]
+                tot = float(sum(ws))
+                probs = {m: w / tot for m, w in zip(keys, ws)}
+            else:
+                tot = float(sum(op["w"]))
+                probs = {m: w / tot for m, w in zip("TCAG", op["w"])}
             if spec["variant"] == "loci" and b % 2:
                 loc = spec["loci"][a % len(spec["loci"])]
                 fn = lambda: lf.set_motif_probs(probs, locus=loc)  # noqa: E731
@@ -1665,6 +2067,8 @@ LF_TOL = dict(rtol=1e-9, atol=1e-12)
 
 
 def lf_label(spec):
+    if spec.get("family"):
+        return spec["family"] + ("-bins" if spec["variant"] == "bins" else "")
     if spec["variant"] == "bins":
         return "bins-" + spec["dist"]
     if spec["model"] in ("BH", "DT"):
@@ -1710,7 +2114,7 @@ def _result_lf(spec):
 
 @st.composite
 def result_cases(draw, light=False):
-    kinds = ["generic", "generic", "tabular", "notcompleted", "notcompleted"] if light else ["model", "model", "model3", "hypothesis", "hypothesis", "bootstrap"]
+    kinds = ["generic", "generic", "tabular", "notcompleted", "notcompleted"] if light else ["model", "model", "model3", "hypothesis", "hypothesis", "bootstrap", "collection"]
     kind = draw(st.sampled_from(kinds))
     case = {"kind": kind, "source": draw(st.sampled_from(["foo.fa", "dir/some data.json", "x"]))}
     small_lf = lf_spec(allow_loci=False, max_ops=2).map(_result_lf)
@@ -1724,6 +2128,8 @@ def result_cases(draw, light=False):
                     elapsed=draw(st.sampled_from([None, 1.5])), nevals=draw(st.sampled_from([None, 33])))
     elif kind == "model3":
         case.update(lfs=[draw(small_lf) for _ in range(3)], name="split", stat=draw(st.sampled_from(["sum", "max"])))
+    elif kind == "collection":
+        case.update(members=[draw(small_lf) for _ in range(draw(st.integers(0, 3)))], name=draw(st.sampled_from([None, "coll"])))
     elif kind in ("hypothesis", "bootstrap"):
         case.update(null=draw(small_lf), alts=[draw(small_lf) for _ in range(draw(st.integers(1, 2)))], name=draw(st.sampled_from([None, "hyp"])), nsim=draw(st.integers(0, 2)))
     else:
@@ -1825,6 +2231,20 @@ def _hyp_obs():
     ]
 
 
+def _collection_obs():
+    def members(o):
+        o.deserialised_values()
+        return {str(k): norm(value_obs(v)) for k, v in o.items()}
+
+    def selected(o):
+        if len(o) == 0:
+            return None
+        return sorted(m.name for m in o.select_models(stat="aic", threshold=0.05))
+
+    return [("class", lambda o: type(o).__name__), ("source", lambda o: str(o.source)), ("name", lambda o: o.name), ("keys", lambda o: list(o.keys())), ("len", len),
+            ("members", members), ("select_models", selected)]
+
+
 def _nc_obs():
     return [("class", lambda o: type(o).__name__), ("type", lambda o: o.type), ("origin", lambda o: o.origin), ("message", lambda o: o.message),
             ("source", lambda o: None if o.source is None else str(o.source)), ("str", str), ("bool", bool), ("int", int)]
@@ -1833,7 +2253,7 @@ def _nc_obs():
 def exec_result(case) -> Soft:
     from cogent3 import make_aligned_seqs
     from cogent3.app.composable import NotCompleted
-    from cogent3.app.result import bootstrap_result, generic_result, hypothesis_result, model_result, tabular_result
+    from cogent3.app.result import bootstrap_result, generic_result, hypothesis_result, model_collection_result, model_result, tabular_result
 
     s = Soft("C10/")
     kind = case["kind"]
@@ -1884,6 +2304,22 @@ def exec_result(case) -> Soft:
         observers = _model_result_obs()
         tol = LF_TOL
         nontrivial = any(sp["ops"] for sp in case["lfs"])
+    elif kind == "collection":
+        def build():
+            res = model_collection_result(name=case["name"], source=src)
+            for i, spec in enumerate(case["members"]):
+                m = mr(spec, f"m{i}")
+                if m is None:
+                    return None
+                res[f"m{i}"] = m
+            return res
+
+        ok, obj = s.call(pre + "construct", build)
+        ok = ok and obj is not None
+        observers = _collection_obs()
+        tol = LF_TOL
+        nontrivial = any(sp["ops"] for sp in case["members"])
+        s.cls(f"members:{len(case['members'])}")
     elif kind in ("hypothesis", "bootstrap"):
         def build_h():
             res = hypothesis_result(name_of_null="null", name=case["name"], source=src)
@@ -1957,6 +2393,7 @@ COVERED_KEYS = {
     "cogent3.core.new_alphabet.CodonAlphabet": "basics", "cogent3.core.new_sequence.Sequence": "sequence", "cogent3.core.new_sequence.ProteinSequence": "sequence",
     "cogent3.core.new_sequence.ByteSequence": "sequence", "cogent3.core.new_sequence.ProteinWithStopSequence": "sequence", "cogent3.core.new_sequence.DnaSequence": "sequence",
     "cogent3.core.new_sequence.RnaSequence": "sequence", "cogent3.core.new_alignment.SeqsData": "collection", "cogent3.core.new_alignment.SequenceCollection": "collection",
+    "cogent3.core.profile": "profile",  # registered by the fix of the profile-class defect; reported as 'not-registered-any-more' on a tree without it
 }
 UNCOVERED_KEYS = {"annotation_to_annotation_db"}  # converter for the pre-2023 'annotations' list format, no object serialises to it any more
 
@@ -1992,12 +2429,14 @@ SUBS = [
     Sub("results", exec_result, strategy=result_cases(), quick=160, thorough=16_000, shards_quick=8, weight=8.0),
     Sub("results_light", exec_result, strategy=result_cases(light=True), quick=400, thorough=32_000, shards_quick=4, weight=1.0),
     Sub("likelihood_function", exec_lf, strategy=lf_spec(), quick=320, thorough=16_000, shards_quick=8, weight=5.0),
+    Sub("lf_families", exec_lf, strategy=lf_family_spec(), quick=48, thorough=3_200, shards_quick=8, weight=40.0),
     Sub("annotation_db", exec_db, strategy=db_cases(), quick=300, thorough=32_000, shards_quick=4),
     Sub("basics", exec_basic, enumerate=enum_basics, exhaustive=True, weight=0.2),
     Sub("models", exec_model, enumerate=enum_models, exhaustive=True, weight=50.0),
     Sub("maps", exec_map, strategy=map_cases(), quick=600, thorough=64_000, shards_quick=4),
     Sub("trees", exec_tree, strategy=tree_cases(), quick=600, thorough=64_000, shards_quick=4),
     Sub("tabular", exec_tabular, strategy=tabular_cases(), quick=800, thorough=64_000, shards_quick=4),
+    Sub("profile", exec_profile, strategy=profile_cases(), quick=800, thorough=64_000, shards_quick=4),
     Sub("sequence", exec_seq, strategy=seq_cases(), quick=1200, thorough=160_000, shards_quick=8),
     Sub("collection", exec_coll, strategy=coll_cases(), quick=800, thorough=96_000, shards_quick=8),
 ]
